@@ -23,7 +23,15 @@ def child(pid, tier, seed, replay):
         ctx.replay = json.loads(Path(replay).read_text())
     else:
         ctx.replay = None
-    rc = mod.run(ctx)
+    try:
+        rc = mod.run(ctx)
+    except SystemExit:
+        raise
+    except BaseException:
+        import traceback
+        traceback.print_exc()
+        sys.stdout.flush()
+        sys.exit(3)   # checker failure: reported by the parent as an abnormal end
     sys.stdout.flush()
     sys.exit(rc)
 
